@@ -73,11 +73,12 @@ type workItem struct {
 }
 
 type pool struct {
-	mu     sync.Mutex
-	cond   *sync.Cond
-	stack  []workItem
-	active int
-	stop   bool
+	mu        sync.Mutex
+	cond      *sync.Cond
+	stack     []workItem
+	active    int
+	stop      bool
+	budgetHit bool
 }
 
 func (p *pool) push(w workItem) {
@@ -120,6 +121,7 @@ type runStats struct {
 	Funcs     map[string]bool
 	Stubs     map[string]bool
 	Errors    int
+	BudgetHit bool
 }
 
 type options struct {
@@ -129,6 +131,9 @@ type options struct {
 	samplesPer int
 	trace      bool
 	solverSet  bool
+	budgetS    int
+	known      []finding
+	prop       string
 }
 
 // explore runs all instances on a shared worker pool.
@@ -150,8 +155,22 @@ func explore(l *loaded, insts []Inst, opt options) ([]*instResult, runStats, err
 	}
 	stats := runStats{Funcs: map[string]bool{}, Stubs: map[string]bool{}}
 	var smu sync.Mutex
+	distinct := map[string]bool{}
 	stopProgress := make(chan struct{})
 	defer close(stopProgress)
+	if opt.budgetS > 0 {
+		go func() {
+			select {
+			case <-stopProgress:
+			case <-time.After(time.Duration(opt.budgetS) * time.Second):
+				p.mu.Lock()
+				p.stop = true
+				p.budgetHit = true
+				p.mu.Unlock()
+				p.cond.Broadcast()
+			}
+		}()
+	}
 	if os.Getenv("KV_PROGRESS") != "" {
 		go func() {
 			tk := time.NewTicker(10 * time.Second)
@@ -248,6 +267,19 @@ func explore(l *loaded, insts []Inst, opt options) ([]*instResult, runStats, err
 					if len(ir.Bad) < 400 {
 						ir.Bad = append(ir.Bad, out)
 					}
+					if out.Kind != "unsupported" && out.Kind != "engine-error" && matchFinding(opt.known, opt.prop, ir.Inst, out) == nil {
+						smu.Lock()
+						distinct[sig(ir.Inst, out)] = true
+						many := len(distinct) >= 40
+						smu.Unlock()
+						if many {
+							// enough distinct counterexamples: no point in exploring the rest
+							p.mu.Lock()
+							p.stop = true
+							p.mu.Unlock()
+							p.cond.Broadcast()
+						}
+					}
 				}
 				capped := ir.Inst.MaxPaths > 0 && ir.Paths >= ir.Inst.MaxPaths
 				if capped {
@@ -300,6 +332,7 @@ func explore(l *loaded, insts []Inst, opt options) ([]*instResult, runStats, err
 		}()
 	}
 	wg.Wait()
+	stats.BudgetHit = p.budgetHit
 	return results, stats, firstErr
 }
 
@@ -438,12 +471,17 @@ func runCheck(prop, tier string, opt options) int {
 	if spec.Solver != "" && !opt.solverSet {
 		opt.solver = spec.Solver
 	}
+	known := loadFindings()
+	opt.known, opt.prop = known, prop
 	results, stats, err := explore(l, insts, opt)
 	if err != nil {
 		fmt.Fprintln(os.Stderr, "explore:", err)
 		return 2
 	}
-	known := loadFindings()
+	budgetNote := ""
+	if stats.BudgetHit {
+		budgetNote = fmt.Sprintf("time budget of %d s exceeded: exploration stopped early (violations found so far are still reported)", opt.budgetS)
+	}
 
 	// classify
 	type group struct {
@@ -576,9 +614,13 @@ func runCheck(prop, tier string, opt options) int {
 			}
 		}
 	}
-	os.MkdirAll(filepath.Join(verifDir, "replays", prop), 0o755)
+	outDir := verifDir
+	if v := os.Getenv("KV_OUT"); v != "" {
+		outDir = v // experiments (seeded changes) write their evidence and replays elsewhere
+	}
+	os.MkdirAll(filepath.Join(outDir, "replays", prop), 0o755)
 	// clean old replay files of this property
-	old, _ := filepath.Glob(filepath.Join(verifDir, "replays", prop, "*.json"))
+	old, _ := filepath.Glob(filepath.Join(outDir, "replays", prop, "*.json"))
 	for _, f := range old {
 		os.Remove(f)
 	}
@@ -621,7 +663,7 @@ func runCheck(prop, tier string, opt options) int {
 		v, ks := nondetVec(g.o)
 		rf := replayFile{Property: prop, Pkg: g.in.Pkg, Harness: g.in.Fn, Args: g.in.Args, Kind: g.o.Kind, Detail: g.o.Detail,
 			Site: g.o.Site, Nondet: v, NondetK: ks, Obs: g.o.Obs, Confirmed: confirmed, Native: g.conf, Note: note}
-		path := filepath.Join(verifDir, "replays", prop, fmt.Sprintf("%s-%d.json", g.in.Fn, i))
+		path := filepath.Join(outDir, "replays", prop, fmt.Sprintf("%s-%d.json", g.in.Fn, i))
 		b, _ := json.MarshalIndent(rf, "", " ")
 		os.WriteFile(path, b, 0o644)
 		out = append(out, fmt.Sprintf("VIOLATION property=%s replay=%s", prop, path))
@@ -635,11 +677,14 @@ func runCheck(prop, tier string, opt options) int {
 		states += n
 		for i, v := range ev {
 			violations++
-			path := filepath.Join(verifDir, "replays", prop, fmt.Sprintf("extra-%d.json", i))
+			path := filepath.Join(outDir, "replays", prop, fmt.Sprintf("extra-%d.json", i))
 			b, _ := json.MarshalIndent(map[string]string{"property": prop, "kind": "concrete", "detail": v}, "", " ")
 			os.WriteFile(path, b, 0o644)
 			out = append(out, fmt.Sprintf("VIOLATION property=%s replay=%s", prop, path), "  "+v)
 		}
+	}
+	if budgetNote != "" {
+		inconclusive = append(inconclusive, budgetNote)
 	}
 	// vacuity
 	for _, c := range spec.Covers {
@@ -729,9 +774,9 @@ func runCheck(prop, tier string, opt options) int {
 		},
 		"assumptions": append([]string{"go/ssa faithfully represents the source", "the SMT solver answers are correct (any (error line or unknown makes the run inconclusive)", "amd64 float-to-int conversion semantics"}, spec.Assume...),
 	}
-	os.MkdirAll(filepath.Join(verifDir, "evidence"), 0o755)
+	os.MkdirAll(filepath.Join(outDir, "evidence"), 0o755)
 	eb, _ := json.MarshalIndent(ev, "", " ")
-	os.WriteFile(filepath.Join(verifDir, "evidence", prop+".json"), eb, 0o644)
+	os.WriteFile(filepath.Join(outDir, "evidence", prop+".json"), eb, 0o644)
 
 	for _, s := range out {
 		fmt.Println(s)
